@@ -24,6 +24,22 @@ class BlockContext:
 
 
 class CompilationUnit(EvaluationContext):
+    def check_scope_size(self, scope_vars, routine, node):
+        """Raise a compile error if the variables of a scope (a frame
+        including its parameters, the static variables of a routine, or
+        the shared variables) no longer fit: variable operands are 16
+        bits wide."""
+        total_size = sum(
+            get_type_size(self, vtype) for vtype in scope_vars.values())
+        if scope_vars is routine.local_vars:
+            total_size += len(routine.params)
+        if total_size > 65535:
+            raise CompileError(
+                EC.INVALID_DIMENSIONS,
+                'Too much data: the variables of this scope need '
+                f'{total_size} cells (limit: 65535)',
+                node=node)
+
     def __init__(self):
         super().__init__()
 
@@ -672,8 +688,12 @@ class Pass2(CompilePass):
 
             if node.parent_routine.is_static:
                 node.parent_routine.static_vars[node.base_var] = decl.type
+                scope_vars = node.parent_routine.static_vars
             else:
                 node.parent_routine.local_vars[node.base_var] = decl.type
+                scope_vars = node.parent_routine.local_vars
+            self.compilation.check_scope_size(
+                scope_vars, node.parent_routine, node)
 
             node.implicit_decl = decl
 
@@ -880,16 +900,8 @@ class Pass2(CompilePass):
                 node.parent_routine.local_vars[decl.name] = decl.type
                 scope_vars = node.parent_routine.local_vars
 
-            # variable operands are 16 bits wide
-            total_size = sum(
-                get_type_size(self.compilation, vtype)
-                for vtype in scope_vars.values())
-            if total_size > 65535:
-                raise CompileError(
-                    EC.INVALID_DIMENSIONS,
-                    'Too much data: the variables of this scope need '
-                    f'{total_size} cells (limit: 65535)',
-                    node=decl)
+            self.compilation.check_scope_size(
+                scope_vars, node.parent_routine, decl)
 
     def process_assignment_pre(self, node):
         if not node.lvalue.type.is_coercible_to(node.rvalue.type):
